@@ -121,15 +121,15 @@ OPS = [
     O('uint.trailing_ones', 'u', lean='uint_trailing_zeros_ni'),
     O('uint.bit', ['u', 'sha'], lean='uint_bit_ni'), O('uint.bit_vartime', 'u', ['bitidx'], kind='vt', lean='bit_vartime_trace_pub'),
     O('uint.split_mul', 'uu', wq=[1, 2, 4, 8, 16], lean='uint_mul_ni'), O('uint.wrapping_mul', 'uu', lean='uint_mul_ni'),
-    O('uint.checked_mul', 'uu', lean='uint_mul_ni'), O('uint.square_wide', 'u', wq=[1, 2, 4, 8, 16]),
+    O('uint.checked_mul', 'uu', lean='uint_mul_ni'), O('uint.square_wide', 'u', wq=[1, 2, 4, 8, 16], lean='uint_square_wide_ni'),
     O('uint.div_rem', ['u', 'nz'], wq=[1, 2, 4, 8], lean='uint_div_rem_ni', heavy=4), O('uint.rem', ['u', 'nz'], lean='uint_div_rem_ni', heavy=4),
     O('uint.wrapping_div', ['u', 'nz'], wq=[2, 4], lean='uint_div_rem_ni', heavy=4), O('uint.checked_div', ['u', 'nz'], wq=[2, 4], lean='uint_div_rem_ni', heavy=4),
     O('uint.div_rem_limb', ['u', 'nzl'], lean='uint_div_rem_limb_ni'), O('uint.rem_limb', ['u', 'nzl'], lean='uint_div_rem_limb_ni'),
-    O('uint.div_rem_vartime', ['u', 'pdiv'], kind='vt', heavy=2), O('uint.rem_vartime', ['u', 'pdiv'], kind='vt', heavy=2),
+    O('uint.div_rem_vartime', ['u', 'pdiv'], kind='vt', heavy=2, lean='div_rem_vartime_trace_pub'), O('uint.rem_vartime', ['u', 'pdiv'], kind='vt', heavy=2, lean='div_rem_vartime_trace_pub'),
     O('uint.add_mod', ['ltm', 'ltm', 'mod'], lean='uint_add_mod_ni'), O('uint.sub_mod', ['ltm', 'ltm', 'mod'], lean='uint_sub_mod_ni'),
     O('uint.neg_mod', ['ltm', '-', 'mod'], lean='uint_neg_mod_ni'), O('uint.double_mod', ['ltm', '-', 'mod'], lean='uint_add_mod_ni'),
-    O('uint.add_mod_special', ['u', 'u', 'l']), O('uint.sub_mod_special', ['u', 'u', 'l']), O('uint.mul_mod_special', ['u', 'u', 'nzl']),
-    O('uint.mul_mod', ['u', 'u', 'omod'], wq=[1, 2, 4], heavy=6),
+    O('uint.add_mod_special', ['u', 'u', 'l'], lean='uint_add_mod_special_ni'), O('uint.sub_mod_special', ['u', 'u', 'l'], lean='uint_sub_mod_special_ni'), O('uint.mul_mod_special', ['u', 'u', 'nzl'], lean='uint_mul_mod_special_ni'),
+    O('uint.mul_mod', ['u', 'u', 'omod'], wq=[1, 2, 4], heavy=6, lean='uint_mul_mod_ni'),
     O('uint.mul_mod_trait', ['u', 'u', 'nz'], wq=[1, 2, 4], lean='mul_mod_trait_leaks_modulus', heavy=4),
     O('uint.inv_mod2k', ['u', 'k'], wq=[1, 2, 4], lean='uint_inv_mod2k_ni', heavy=8), O('uint.inv_mod2k_vartime', 'u', ['k'], wq=[1, 2, 4], kind='vt', lean='inv_mod2k_vartime_trace_pub', heavy=4),
     O('uint.inv_odd_mod', ['u', '-', 'omod'], wq=[1, 2, 4], lean='jump_leaks', heavy=8), O('uint.inv_mod', ['u', '-', 'nz'], wq=[1, 2, 4], lean='jump_leaks', heavy=16),
@@ -137,46 +137,46 @@ OPS = [
     O('uint.sqrt', 'u', wq=[1, 2, 4], lean='uint_sqrt_ni', heavy=16), O('uint.checked_sqrt', 'u', wq=[1, 2], lean='uint_sqrt_ni', heavy=16),
     O('uint.sqrt_vartime', 'u', wq=[2], wt=[1, 2, 4], kind='control', heavy=4),
     # ---- Montgomery forms (modulus public through the parameters)
-    O('monty.params_new', ['-', '-', 'omod'], wq=[1, 2, 4], heavy=8),
+    O('monty.params_new', ['-', '-', 'omod'], wq=[1, 2, 4], heavy=8, lean='monty_params_new_ni'),
     O('monty.new', ['u', '-', 'pmod'], wq=[1, 2, 4, 8], lean='monty_mul_ni'), O('monty.retrieve', ['ltm', '-', 'pmod'], lean='montgomery_reduction_ni'),
-    O('monty.mul', ['ltm', 'ltm', 'pmod'], wq=[1, 2, 4, 8, 16], lean='monty_mul_ni'), O('monty.square', ['ltm', '-', 'pmod'], wq=[1, 2, 4, 8, 16]),
+    O('monty.mul', ['ltm', 'ltm', 'pmod'], wq=[1, 2, 4, 8, 16], lean='monty_mul_ni'), O('monty.square', ['ltm', '-', 'pmod'], wq=[1, 2, 4, 8, 16], lean='monty_square_ni'),
     O('monty.add', ['ltm', 'ltm', 'pmod'], lean='uint_add_mod_ni'), O('monty.sub', ['ltm', 'ltm', 'pmod'], lean='uint_sub_mod_ni'), O('monty.neg', ['ltm', '-', 'pmod'], lean='uint_neg_mod_ni'),
-    O('monty.double', ['ltm', '-', 'pmod']), O('monty.div_by_2', ['ltm', '-', 'pmod']),
+    O('monty.double', ['ltm', '-', 'pmod']), O('monty.div_by_2', ['ltm', '-', 'pmod'], lean='div_by_2_ni'),
     O('monty.pow', ['ltm', 'u', 'pmod'], wq=[1, 2], wt=[1, 2, 4], heavy=30, lean='pow_ni'),
     O('monty.pow_bounded', ['ltm', 'u', 'pmod'], ['expbits'], wq=[2, 4, 8], heavy=10, lean='pow_bounded_exp_trace_pub'),
     O('monty.inv', ['ltm', '-', 'pmod'], wq=[1, 2, 4], lean='jump_leaks', heavy=16),
     O('cmonty.new', ['u'], wq=[4], lean='monty_mul_ni'), O('cmonty.retrieve', ['ltc'], wq=[4], lean='montgomery_reduction_ni'), O('cmonty.mul', ['ltc', 'ltc'], wq=[4], lean='monty_mul_ni'),
-    O('cmonty.square', ['ltc'], wq=[4]), O('cmonty.add', ['ltc', 'ltc'], wq=[4], lean='uint_add_mod_ni'), O('cmonty.sub', ['ltc', 'ltc'], wq=[4], lean='uint_sub_mod_ni'),
+    O('cmonty.square', ['ltc'], wq=[4], lean='monty_square_ni'), O('cmonty.add', ['ltc', 'ltc'], wq=[4], lean='uint_add_mod_ni'), O('cmonty.sub', ['ltc', 'ltc'], wq=[4], lean='uint_sub_mod_ni'),
     O('cmonty.neg', ['ltc'], wq=[4], lean='uint_neg_mod_ni'), O('cmonty.pow', ['ltc', 'u'], wq=[4], heavy=30, lean='pow_ni'), O('cmonty.inv', ['ltc'], wq=[4], lean='jump_leaks', heavy=16),
     # ---- Int
-    O('int.ct_eq', 'uu'), O('int.ct_lt', 'uu'), O('int.ct_gt', 'uu'), O('int.cmp', 'uu'), O('int.ct_select', ['u', 'u', 'bit']),
-    O('int.wrapping_add', 'uu'), O('int.wrapping_sub', 'uu'), O('int.checked_add', 'uu'), O('int.checked_sub', 'uu'),
-    O('int.wrapping_neg', 'u'), O('int.checked_neg', 'u'), O('int.abs_sign', 'u'), O('int.is_negative', 'u'),
-    O('int.split_mul', 'uu'), O('int.checked_mul', 'uu'),
-    O('int.checked_div_rem', ['u', 'nz'], wq=[1, 2, 4], heavy=4), O('int.rem', ['u', 'nz'], wq=[2, 4], heavy=4),
-    O('int.checked_div_rem_floor', ['u', 'nz'], wq=[2, 4], heavy=4), O('int.div_rem_uint', ['u', 'nz'], wq=[2, 4], heavy=4),
-    O('int.shr', ['u', 'sh']), O('int.shl', ['u', 'sh']), O('int.shr_vartime', 'u', ['shift'], kind='vt'),
+    O('int.ct_eq', 'uu'), O('int.ct_lt', 'uu', lean='int_lt_ni'), O('int.ct_gt', 'uu', lean='int_gt_ni'), O('int.cmp', 'uu', lean='int_cmp_ni'), O('int.ct_select', ['u', 'u', 'bit']),
+    O('int.wrapping_add', 'uu'), O('int.wrapping_sub', 'uu'), O('int.checked_add', 'uu', lean='int_checked_add_ni'), O('int.checked_sub', 'uu', lean='int_checked_sub_ni'),
+    O('int.wrapping_neg', 'u', lean='int_overflowing_neg_ni'), O('int.checked_neg', 'u', lean='int_checked_neg_ni'), O('int.abs_sign', 'u', lean='int_abs_sign_ni'), O('int.is_negative', 'u', lean='int_is_negative_ni'),
+    O('int.split_mul', 'uu', lean='int_split_mul_ni'), O('int.checked_mul', 'uu', lean='int_checked_mul_ni'),
+    O('int.checked_div_rem', ['u', 'nz'], wq=[1, 2, 4], heavy=4, lean='int_checked_div_rem_ni'), O('int.rem', ['u', 'nz'], wq=[2, 4], heavy=4, lean='int_checked_div_rem_ni'),
+    O('int.checked_div_rem_floor', ['u', 'nz'], wq=[2, 4], heavy=4, lean='int_checked_div_rem_floor_ni'), O('int.div_rem_uint', ['u', 'nz'], wq=[2, 4], heavy=4, lean='int_div_rem_uint_ni'),
+    O('int.shr', ['u', 'sh'], lean='int_shr_ni'), O('int.shl', ['u', 'sh'], lean='uint_shl_ni'), O('int.shr_vartime', 'u', ['shift'], kind='vt', lean='int_shr_vartime_trace_pub'),
     # ---- BoxedUint
     # mixed precision: the right operand has twice the limb count (public); both VALUES are secret (seed C01-m5: a short-circuit
     # over the excess limbs of the wider operand)
     O('boxed.ct_eq_mixed', ['u', 'uw'], wq=[1, 2, 4]), O('boxed.ct_lt_mixed', ['u', 'uw'], wq=[1, 2, 4]), O('boxed.cmp_mixed', ['u', 'uw'], wq=[1, 2]),
     O('boxed.wrapping_add_mixed', ['u', 'uw'], wq=[1, 2, 4]), O('boxed.wrapping_sub_mixed', ['u', 'uw'], wq=[1, 2]), O('boxed.bitand_mixed', ['u', 'uw'], wq=[1, 2]),
-    O('boxed.ct_eq', 'uu', wq=[1, 2, 4, 8]), O('boxed.ct_lt', 'uu'), O('boxed.ct_gt', 'uu'), O('boxed.cmp', 'uu'),
-    O('boxed.cmp_vartime', 'uu', wq=[4], kind='control'), O('boxed.is_zero', 'u'),
+    O('boxed.ct_eq', 'uu', wq=[1, 2, 4, 8], lean='boxed_ct_eq_ni'), O('boxed.ct_lt', 'uu', lean='boxed_ct_lt_ni'), O('boxed.ct_gt', 'uu', lean='boxed_ct_gt_ni'), O('boxed.cmp', 'uu', lean='boxed_cmp_ni'),
+    O('boxed.cmp_vartime', 'uu', wq=[4], kind='control'), O('boxed.is_zero', 'u', lean='boxed_is_zero_ni'),
     O('boxed.ct_select', ['u', 'u', 'bit'], lean='boxed_select_ni'), O('boxed.ct_assign', ['u', 'u', 'bit'], lean='boxed_assign_ni'),
     O('boxed.ct_swap', ['u', 'u', 'bit'], lean='boxed_swap_ni'),
     O('boxed.adc', ['u', 'u', 'bit'], lean='uint_adc_ni'), O('boxed.sbb', ['u', 'u', 'bit'], lean='uint_sbb_ni'),
-    O('boxed.wrapping_add', 'uu'), O('boxed.wrapping_sub', 'uu'), O('boxed.wrapping_neg', 'u'),
-    O('boxed.mul', 'uu', wq=[1, 2, 4, 8, 16]), O('boxed.wrapping_mul', 'uu'), O('boxed.square', 'u', wq=[1, 2, 4, 8, 16]),
+    O('boxed.wrapping_add', 'uu', lean='boxed_adc_ni'), O('boxed.wrapping_sub', 'uu', lean='boxed_sbb_ni'), O('boxed.wrapping_neg', 'u', lean='boxed_wrapping_neg_ni'),
+    O('boxed.mul', 'uu', wq=[1, 2, 4, 8, 16], lean='boxed_mul_ni'), O('boxed.wrapping_mul', 'uu', lean='boxed_wrapping_mul_ni'), O('boxed.square', 'u', wq=[1, 2, 4, 8, 16], lean='boxed_square_ni'),
     O('boxed.shl', ['u', 'sh'], lean='boxed_shl_feeds_secret_to_div'), O('boxed.shr', ['u', 'sh'], lean='boxed_shl_feeds_secret_to_div'), O('boxed.overflowing_shl', ['u', 'sha'], lean='boxed_shl_feeds_secret_to_div'),
-    O('boxed.shl_vartime', 'u', ['shift'], kind='vt'), O('boxed.shr_vartime', 'u', ['shift'], kind='vt'),
-    O('boxed.bits', 'u'), O('boxed.bits_vartime', 'u', wq=[4], kind='control'), O('boxed.leading_zeros', 'u'), O('boxed.trailing_zeros', 'u'),
-    O('boxed.bit', ['u', 'sha']),
+    O('boxed.shl_vartime', 'u', ['shift'], kind='vt'), O('boxed.shr_vartime', 'u', ['shift'], kind='vt', lean='boxed_shr_vartime_trace_pub'),
+    O('boxed.bits', 'u', lean='boxed_bits_ni'), O('boxed.bits_vartime', 'u', wq=[4], kind='control'), O('boxed.leading_zeros', 'u', lean='boxed_leading_zeros_ni'), O('boxed.trailing_zeros', 'u', lean='boxed_trailing_zeros_ni'),
+    O('boxed.bit', ['u', 'sha'], lean='boxed_bit_ni'),
     O('boxed.div_rem', ['u', 'nz'], wq=[1, 2, 4, 8], heavy=4), O('boxed.rem', ['u', 'nz'], wq=[2, 4], heavy=4),
     O('boxed.div_rem_vartime', ['u', 'pdiv'], wq=[2, 4], kind='vt', heavy=2), O('boxed.div_rem_limb', ['u', 'nzl']),
-    O('boxed.add_mod', ['ltm', 'ltm', 'mod']), O('boxed.sub_mod', ['ltm', 'ltm', 'mod']), O('boxed.neg_mod', ['ltm', '-', 'mod']),
+    O('boxed.add_mod', ['ltm', 'ltm', 'mod'], lean='boxed_add_mod_ni'), O('boxed.sub_mod', ['ltm', 'ltm', 'mod'], lean='boxed_sub_mod_ni'), O('boxed.neg_mod', ['ltm', '-', 'mod'], lean='boxed_neg_mod_ni'),
     O('boxed.mul_mod', ['u', 'u', 'omod'], wq=[1, 2, 4], heavy=6),
-    O('boxed.inv_mod2k', ['u', 'k'], wq=[1, 2], wt=[1, 2, 4], heavy=8),
+    O('boxed.inv_mod2k', ['u', 'k'], wq=[1, 2], wt=[1, 2, 4], heavy=8, lean='boxed_inv_mod2k_ni'),
     O('boxed.inv_odd_mod', ['u', '-', 'omod'], wq=[1, 2, 4], heavy=8), O('boxed.inv_mod', ['u', '-', 'nz'], wq=[1, 2], wt=[1, 2, 4], heavy=16),
     O('boxed.sqrt', 'u', wq=[1, 2, 4], heavy=16), O('boxed.gcd', 'uu', wq=[1, 2, 4], heavy=8),
     # ---- BoxedMontyForm
